@@ -48,9 +48,10 @@ MODULI = ("E", "E_S", "E_L")
 class ModelEval:
     """Piecewise symbolic evaluation of a shipped model function."""
 
-    def __init__(self, mod):
+    def __init__(self, mod, fn=None, depth=0):
         self.mod = mod
-        self.fn = facts.model_func(mod)
+        self.depth = depth
+        self.fn = fn if fn is not None else facts.model_func(mod)
         self.params = [a.arg for a in self.fn.args.args]
         if len(self.params) < 3:
             raise Undecided(f"{mod.relpath}: model_func has too few "
@@ -62,6 +63,7 @@ class ModelEval:
         self.root_def = None
         self.slice_store = None
         self.ret_on = self.ret_off = None
+        self.early = []
         self.delta_uses = []
         self._run()
 
@@ -85,6 +87,14 @@ class ModelEval:
                         t.value, ast.Name):
                     self._masked_store(t, v, st)
                     continue
+            if isinstance(st, ast.If) and not st.orelse and len(
+                    st.body) == 1 and isinstance(st.body[0], ast.Return) \
+                    and _no_contact_test(st.test, self.mask):
+                # fast path for "no point is in contact": every point is
+                # off contact, the value must be the off-contact value
+                self.early.append((st, self._ev(st.body[0].value, self.off,
+                                                False)))
+                continue
             if isinstance(st, ast.Return):
                 self.ret_on = self._ev(st.value, self.on, True)
                 self.ret_off = self._ev(st.value, self.off, False)
@@ -165,7 +175,120 @@ class ModelEval:
                     raise Undecided("masked read outside a masked store")
                 return ev(n.value)
             return None
-        return from_py(expr, env, on_subscript=sub)
+
+        def call(n, ev):
+            return self._call(n, ev, on)
+        return from_py(expr, env, on_subscript=sub, on_call=call)
+
+    def _is_depth(self, e):
+        return isinstance(e, ast.BinOp) and isinstance(e.op, ast.Sub) and \
+            norm(e.left) == "contact_point" and norm(e.right) == self.xname
+
+    def _call(self, n, ev, on):
+        d = dotted(n.func) or ""
+        short = d.split(".")[-1]
+        # np.clip(contact_point - delta, 0, None) / np.maximum(.., 0):
+        # the depth inside the contact region, 0 outside
+        x = None
+        if short == "clip" and len(n.args) >= 2 and norm(n.args[1]) == "0" \
+                and (len(n.args) == 2 or norm(n.args[2]) == "None"):
+            x = n.args[0]
+        elif short == "maximum" and len(n.args) == 2 and "0" in (
+                norm(n.args[0]), norm(n.args[1])):
+            x = n.args[1] if norm(n.args[0]) == "0" else n.args[0]
+        if x is not None:
+            if isinstance(x, ast.Name) and self.root_def and \
+                    x.id == self.root_def[0] and self.root_def[1] > 0:
+                pass
+            elif self._is_depth(x):
+                if self.root_def is None:
+                    self.root_def = ("<inline>", 1, n)
+            else:
+                raise Undecided(f"clipping of {norm(x)[:40]} in a model "
+                                "formula")
+            if "<clip>" not in self.mask:
+                self.mask["<clip>"] = (ast.Name(id=self.root_def[0],
+                                                ctx=ast.Load()), "Gt",
+                                       ast.Constant(value=0), n)
+            return RF.sym("delta_c") if on else RF.const(0)
+        # a call of another function of the package: its piecewise value
+        # with the arguments substituted
+        if isinstance(n.func, ast.Name) and self.depth < 3:
+            callee = self._resolve_callee(n.func.id)
+            if callee is not None:
+                cmod, cfn = callee
+                sub_ = ModelEval(cmod, cfn, self.depth + 1)
+                params = sub_.params
+                bound = {}
+                for i, a in enumerate(n.args):
+                    if i < len(params):
+                        bound[params[i]] = a
+                for kw in n.keywords:
+                    if kw.arg:
+                        bound[kw.arg] = kw.value
+                # defaults
+                nd = len(cfn.args.defaults)
+                for p_, dv in zip(params[len(params) - nd:],
+                                  cfn.args.defaults):
+                    bound.setdefault(p_, dv)
+                mapping = {}
+                for p_, a in bound.items():
+                    if p_ == sub_.xname:
+                        if norm(a) != self.xname:
+                            raise Undecided("callee evaluated on another "
+                                            "abscissa")
+                        continue
+                    if p_ == "contact_point":
+                        if norm(a) != "contact_point":
+                            raise Undecided("callee evaluated with another "
+                                            "contact point")
+                        continue
+                    mapping[p_] = ev(a)
+                if sub_.root_def is not None and self.root_def is None:
+                    self.root_def = ("<callee>", sub_.root_def[1], n)
+                for mk, mv in sub_.mask.items():
+                    lhs = mv[0]
+                    if isinstance(lhs, ast.Name) and sub_.root_def and \
+                            lhs.id == sub_.root_def[0] and self.root_def:
+                        lhs = ast.Name(id=self.root_def[0], ctx=ast.Load())
+                    self.mask.setdefault(f"<callee>{mk}",
+                                         (lhs,) + tuple(mv[1:]))
+                val = sub_.ret_on if on else sub_.ret_off
+                return val.subs(mapping)
+        return None
+
+    def _resolve_callee(self, name):
+        if name in self.mod.funcs and self.mod.funcs[name] is not self.fn:
+            return self.mod, self.mod.funcs[name]
+        tgt = self.mod.imports.get(name)
+        repo = getattr(self.mod, "repo", None)
+        if tgt and repo is not None and tgt.startswith("."):
+            parts = tgt.lstrip(".").split(".")
+            pkg = self.mod.name.rsplit(".", 1)[0] if "." in self.mod.name \
+                else ""
+            modname = ".".join([p for p in [pkg] + parts[:-1] if p])
+            m2 = repo.modules.get(modname)
+            if m2 is not None and parts[-1] in m2.funcs:
+                return m2, m2.funcs[parts[-1]]
+        return None
+
+
+def _no_contact_test(test, masks):
+    """`not np.any(mask)` / `not mask.any()` / `np.sum(mask) == 0`"""
+    t = test
+    if isinstance(t, ast.UnaryOp) and isinstance(t.op, ast.Not):
+        c = t.operand
+        if isinstance(c, ast.Call):
+            if (call_name(c) or "") in ("np.any", "numpy.any", "any",
+                                        "np.sum", "np.count_nonzero") \
+                    and c.args and isinstance(c.args[0], ast.Name) \
+                    and c.args[0].id in masks:
+                return True
+            if isinstance(c.func, ast.Attribute) and c.func.attr in (
+                    "any", "sum") and isinstance(c.func.value, ast.Name) \
+                    and c.func.value.id in masks:
+                return True
+    return False
 
 
 def doc_formula(mod, fn):
@@ -295,6 +418,12 @@ def r2_off_contact(ctx):
                   f"{mod.relpath}: where the tip is not in contact the "
                   f"function returns {me.ret_off.canon()} instead of exactly "
                   "the baseline")
+        for st_, val in me.early:
+            ctx.check(val == RF.sym("baseline"), st_,
+                      f"{name}: no-contact fast path returns the baseline",
+                      f"{mod.relpath}: when no point is in contact the "
+                      f"function returns {val.canon()} instead of exactly "
+                      "the baseline")
         # the mask
         if me.root_def is None:
             ctx.fail(fn, f"{name}: depth = contact_point - abscissa",
